@@ -271,6 +271,22 @@ theorem explicit_begin_rollback_restores (ct : ConvTable) (fault : Option Nat) (
   simp only [finish, hfail, Option.isNone_some, Bool.or_false, Bool.false_eq_true, if_false, Conn.rollback]
   exact h.2
 
+/-- **Retry on a database that already holds `_alembic_tmp_<t>`.**  An earlier run may have failed after the `DROP`
+of the original, so that all rows live only under the temporary name (the state `late` allows).  Whatever the
+database holds under the two names, if the temporary name is taken the next recreate fails at its very first
+statement and leaves the database exactly as it was — in every connection mode, both scopes, any fault index:
+nothing under either name is touched, in particular the rows under the temporary name are still there. -/
+theorem tmp_taken_untouched (ct : ConvTable) (fault : Option Nat) (commitOnError : Bool) (p : Plan) (mode : ConnMode)
+    (db0 : Db) (tt : Tbl) (htaken : db0.tmp = some tt) :
+    (run ct fault p db0 mode).2 ≠ none ∧ final ct fault commitOnError p db0 mode = db0 := by
+  unfold final run
+  have h := create_tmp_taken (ct := ct) (fault := fault) (p := p) (r := Run.start (Conn.start mode db0))
+    ⟨tt, by cases mode <;> exact htaken⟩
+  refine ⟨h.1, ?_⟩
+  unfold finish
+  rw [h.2]
+  cases mode <;> (split <;> rfl)
+
 /-- **C11.early in the property's own words.**  For a fault injected at statement `k ≤ index(DROP original)`
 (`index(DROP original) = number of create_table statements + 1`, i.e. `p.tmpIndexes.length + 2`), schema, indexes
 and rows of the original table are unchanged — in both scopes, whatever else fails naturally. -/
@@ -323,6 +339,9 @@ example : (run [] none w_plan1 { orig := some w_t0, tmp := none } .autocommit).2
     (run [] none w_plan1 { orig := some w_t0, tmp := none } .explicitBegin).2 = some .notNull ∧
     (final [] none false w_plan1 { orig := some w_t0, tmp := none } .explicitBegin) = { orig := some w_t0, tmp := none } := by
   decide
+
+/-- `tmp_taken_untouched` on a concrete left-over: the copy under the temporary name survives the retry -/
+example : (final [] none false w_plan1 { orig := none, tmp := some w_t0 } .autocommit) = { orig := none, tmp := some w_t0 } := by decide
 
 /-- `transactional_ddl` is a field of the plan that nothing reads: the run is the same for both values -/
 example : run [] none { w_plan1 with transactionalDdl := true } { orig := some w_t0, tmp := none } =
